@@ -11,6 +11,10 @@ G: the same runs produce the vectors: every class string with the predicted toke
    concrete representatives and three white-space interleavings, runs the real ExprLexer /
    ExprParser (every token string up to N is enumerated and compared with the table) and a sample
    through Linter.Lint inside ${{ }} and as a bare if: condition.
+I: the if: channel (ExprIf.tla): every string of symbols (characters plus the marks `}}`, `${{`, `&&`) up to a
+   bound is written as the value of a job-level and a step-level `if:` in every YAML style that can carry it
+   (plain, single-quoted, double-quoted) and linted: a bare condition is accepted iff it is a sentence - `}}`
+   outside a string literal never is -, a rejected one gets exactly one syntax diagnostic within the condition.
 T: random long token strings (7..40, near-sentences, deep nesting) are run on the real lexer+parser,
    recorded, and validated by TLC (ExprTrace.tla).  Every real run that differs from a prediction is
    judged by the same trace specification: PropOK (declarative layer) decides VIOLATION, ModelOK
@@ -39,7 +43,10 @@ WHY_SITE = {
     'rejects-sentence': 'parser:rejects-sentence', 'tree': 'parser:tree', 'error-position': 'parser:error-position',
     'lex-accepts': 'lexer:accepts-nontoken', 'lex-rejects': 'lexer:rejects-token', 'lex-tokens': 'lexer:tokens',
     'lex-error-position': 'lexer:error-position',
+    'if-accepts': 'if:accepts-nonsentence', 'if-rejects': 'if:rejects-sentence', 'if-diagnostics': 'if:diagnostics',
 }
+# named deviations of ExprIf.tla (AllIfDevs)
+IF_DEVS = {'bare-if-stray-close'}
 
 
 # ------------------------------------------------------------------------------------ helpers
@@ -56,6 +63,9 @@ def trace_line(rec):
     """The fields TLC needs (uniform per kind), without the free text."""
     if rec['kind'] == 'lex':
         return json.dumps({'kind': 'lex', 's': rec['s'], 'toks': rec['toks'], 'err': rec['err'], 'off': rec['off']})
+    if rec['kind'] == 'if':
+        return json.dumps({'kind': 'if', 's': rec['s'], 'nsyntax': rec['nsyntax'], 'nexpr': rec['nexpr'],
+                           'inside': rec['inside'], 'off': rec['off']})
     return json.dumps({'kind': 'parse', 'ts': rec['ts'], 'names': rec['names'], 'ok': rec['ok'], 'tree': rec['tree'],
                        'errAt': rec['errAt'], 'lexok': rec['lexok']})
 
@@ -85,6 +95,10 @@ def replay_of(rec, extra=None):
     if rec['kind'] == 'lex':
         rp = {'kind': 'lex', 's': rec['s'], 'rot': rec['rot'], 'input': rec['text'], 'observed':
               {'toks': rec['toks'], 'err': rec['err'], 'off': rec['off'], 'msg': rec.get('msg', '')}}
+    elif rec['kind'] == 'if':
+        rp = {'kind': 'if', 's': rec['s'], 'rot': rec['rot'], 'only': rec['level'] + '/' + rec['style'], 'input': rec['text'],
+              'src': rec['src'], 'observed': {'nsyntax': rec['nsyntax'], 'nexpr': rec['nexpr'], 'inside': rec['inside'],
+                                              'off': rec['off'], 'msgs': rec['msgs']}}
     else:
         rp = {'kind': 'parse', 'ts': rec['ts'], 'rot': rec['rot'], 'variant': rec['variant'], 'input': rec['text'],
               'observed': {'ok': rec['ok'], 'errAt': rec['errAt'], 'msg': rec.get('msg', ''), 'tree': rec['tree']}}
@@ -288,6 +302,82 @@ def parser_part(ck, sd, tier, col):
     return vecs, table
 
 
+# ---------------------------------------------------------------------------------- if: channel (E, G)
+
+def if_usable(run):
+    """The embedding itself must be clean: anything else is a problem of the rendering, not of the code."""
+    if run.get('lintErr'):
+        raise Inconclusive('Lint failed on a rendered if: condition: %s\n%s' % (run['lintErr'], run['src']))
+    if run['other']:
+        raise Inconclusive('rendered if: condition has unrelated diagnostics: %r in\n%s' % (run['other'][:2], run['src']))
+
+
+def if_part(ck, sd, tier, col):
+    cfgs = [('ExprIf_q4.cfg', '12 symbols incl. the marks }} ${{ && and the characters } { $, up to 4 symbols')]
+    if tier == 'thorough':
+        cfgs = [('ExprIf_s4.cfg', '14 symbols incl. the marks }} ${{ && and the characters } { $, up to 4 symbols'),
+                ('ExprIf_q5.cfg', '12 symbols, up to 5 symbols')]
+    for cfg, what in cfgs:
+        r = vplib.run_tlc('ExprIf', cfg, dump='vectors', timeout=3000, workers=HALF, heap='4g' if tier == 'thorough' else None)
+        ck.add_tlc('ExprIf %s: checkIfCondition satisfies the property for every value; the behaviour before fix '
+                   '4175e16 is exactly the named deviation' % what, r)
+        if r.violated:
+            raise Inconclusive('specification ExprIf.tla violates its own invariant %s with %s (model-level only)' % (r.violated, cfg))
+        tag = cfg.split('.')[0]
+        fin, fout, fpred = (os.path.join(sd, tag + x) for x in ('.in.jsonl', '.out.jsonl', '.pred.jsonl'))
+        nvec = nontrivial = 0
+        sample = None
+        with open(fin, 'w') as fi, open(fpred, 'w') as fp:
+            for v in iter_dump(os.path.join(r.dir, 'vectors.dump')):
+                nvec += 1
+                if not v['s']:
+                    continue            # an empty value is not a condition (the YAML level reports it)
+                fi.write(json.dumps({'id': nvec, 's': v['s']}, separators=(',', ':')) + '\n')
+                fp.write(json.dumps(v, separators=(',', ':')) + '\n')
+                if v['sentence'] or ('rbrace' in v['s'] or 'dollar' in v['s']):
+                    nontrivial += 1
+                if sample is None and v['mode'] == 'bare' and v['s'][-2:] == ['rbrace', 'rbrace'] and len(v['s']) > 3:
+                    sample = v
+        if nvec != r.distinct:
+            raise Inconclusive('dump has %d vectors, TLC reported %d states' % (nvec, r.distinct))
+        os.remove(os.path.join(r.dir, 'vectors.dump'))
+        harness(['expr-if', fin, fout])
+        n = nruns = 0
+        styles = {}
+        with open(fout) as f, open(fpred) as fp:
+            for line, pline in zip(f, fp):
+                o, v = json.loads(line), json.loads(pline)
+                if o['runs'] and o['runs'][0]['s'] != v['s']:
+                    raise Inconclusive('harness output out of order')
+                n += 1
+                for run in o['runs']:
+                    if_usable(run)
+                    nruns += 1
+                    key = run['level'] + '/' + run['style']
+                    styles[key] = styles.get(key, 0) + 1
+                    if v['n'] == 2:
+                        same = False                                     # syntax alone does not decide: TLC bounds it
+                    elif v['n'] == 0:
+                        same = run['nsyntax'] == 0
+                    else:
+                        same = run['nsyntax'] == 1 and run['nexpr'] == 1 and run['inside'] and run['off'] == v['off']
+                    if not same and len(col.recs) < 30000:
+                        col.add(run, predicted={k: v[k] for k in ('mode', 'sentence', 'more', 'n', 'off')})
+        if n != nvec - 1:
+            raise Inconclusive('harness returned %d of %d if: vectors' % (n, nvec - 1))
+        if not all(styles.get(lv + '/' + st) for lv in ('job', 'step') for st in ('plain', 'single', 'double')):
+            raise Inconclusive('some if: embedding was never rendered: %r' % styles)
+        for x in (fin, fout, fpred):
+            os.remove(x)
+        ck.count('evaluations', nruns)
+        ck.count('traces_validated_against_impl', n)
+        ck.count('distinct_nontrivial', nontrivial)
+        ck.count('if_vectors', n)
+        ck.count('if_renderings', nruns)
+        if sample is not None:
+            ck.sample({'if_vector': sample})
+
+
 # ------------------------------------------------------------------------------------- lint level
 
 def lint_part(ck, sd, tier, vecs, table, long_recs):
@@ -352,8 +442,8 @@ def run(ck, tier):
     global _builder
     _builder = builder = threading.Thread(target=build_quietly)
     builder.start()
-    col_lex, col_par = Collector(), Collector()
-    lex, par = Part(), Part()
+    col_lex, col_par, col_if = Collector(), Collector(), Collector()
+    lex, par, ifp = Part(), Part(), Part()
     result = {}
 
     def guarded(part, fn):
@@ -363,20 +453,23 @@ def run(ck, tier):
             part.exc = e
     tl = threading.Thread(target=guarded, args=(lex, lambda: lexer_part(lex, sd, tier, col_lex)))
     tp = threading.Thread(target=guarded, args=(par, lambda: parser_part(par, sd, tier, col_par)))
+    ti = threading.Thread(target=guarded, args=(ifp, lambda: if_part(ifp, sd, tier, col_if)))
     tl.start()
     tp.start()
+    ti.start()
     tl.join()
     tp.join()
+    ti.join()
     builder.join()
-    for part in (lex, par):
+    for part in (lex, par, ifp):
         part.merge(ck)
-    for part in (lex, par):
+    for part in (lex, par, ifp):
         if part.exc is not None:
             raise part.exc
     vecs, table = result[par]
     col = Collector()
-    col.recs = col_lex.recs[:10000] + col_par.recs[:10000]
-    ndiff = len(col_lex.recs) + len(col_par.recs)
+    col.recs = col_lex.recs[:10000] + col_par.recs[:10000] + col_if.recs[:10000]
+    ndiff = len(col_lex.recs) + len(col_par.recs) + len(col_if.recs)
 
     # ---- T: random long inputs, plus every real run that differed from its prediction, judged by TLC
     n = 4000 if tier == 'quick' else 40000
@@ -400,21 +493,31 @@ def run(ck, tier):
             ck.violation('lexer:observable', 'input %s: %s' % (rec['text'], rec.get('panic') or rec.get('note')),
                          replay_of(rec, {'problem': rec.get('panic') or rec.get('note')}))
     lexrand = [rec for rec in lexrand if not (rec.get('panic') or rec.get('note'))]
+    ni = 1500 if tier == 'quick' else 15000
+    fif = os.path.join(sd, 'ifrandom.ndjson')
+    harness(['expr-if-random', str(ni), '3', '14', str(vplib.seed()), fif])
+    ifrand = vplib.read_jsonl(fif)
+    if len(ifrand) != ni:
+        raise Inconclusive('recorder wrote %d of %d if: records' % (len(ifrand), ni))
+    for rec in ifrand:
+        if_usable(rec)
     differing = col.recs
     if ndiff > len(differing):
         ck.note('%d real runs differ from their prediction; %d of them are judged' % (ndiff, len(differing)))
-    allrecs = [(rec, meta) for rec, meta in differing] + [(rec, {}) for rec in rand] + [(rec, {}) for rec in lexrand]
+    allrecs = [(rec, meta) for rec, meta in differing] + [(rec, {}) for rec in rand] + [(rec, {}) for rec in lexrand] + \
+        [(rec, {}) for rec in ifrand]
     text = ''.join(trace_line(rec) + '\n' for rec, _ in allrecs)
     t, cnt, mism, drift = judge(text)
     ck.add_tlc('ExprTrace: %d recorded executions (%d runs differing from their prediction + %d random token strings '
-               'of length 7..40 + %d random character strings of length 5..18)' % (cnt, len(differing), len(rand), len(lexrand)), t)
+               'of length 7..40 + %d random character strings of length 5..18 + %d random if: values of length 3..20)'
+               % (cnt, len(differing), len(rand), len(lexrand), len(ifrand)), t)
     if cnt != len(allrecs):
         raise Inconclusive('TLC read %d of %d trace records' % (cnt, len(allrecs)))
     if len(mism) >= 20000 or len(drift) >= 20000:
         raise Inconclusive('more than 20000 rejected records: the trace verdict is truncated')
     report(ck, allrecs, mism, drift)
-    ck.cov['traces_validated_against_impl'] += len(rand) + len(lexrand)
-    ck.cov['evaluations'] += len(rand) + len(lexrand)
+    ck.cov['traces_validated_against_impl'] += len(rand) + len(lexrand) + len(ifrand)
+    ck.cov['evaluations'] += len(rand) + len(lexrand) + len(ifrand)
     ck.cov['runs_differing_from_prediction'] = ndiff
     ck.cov['random_accepted'] = sum(1 for r in rand if r['ok'])
     ck.sample({'trace_record': {k: rand[0][k] for k in ('ts', 'text', 'ok', 'errAt', 'msg')}})
@@ -439,6 +542,10 @@ def run(ck, tier):
         'a leading byte-order mark (skipped by text/scanner) is outside the modelled alphabet',
         'Linter.Lint is exercised with single-line double-quoted scalars only; positions inside multi-line scalars belong to C07',
         'for a bare if: condition the placeholder is the scalar including its quotes',
+        'if: channel: white space is a blank and characters are ASCII (multi-line scalars and non-ASCII columns belong to C07); '
+        'an unterminated string literal of a bare condition is reported at the end of the lexer\'s input, two characters '
+        'behind the value, which counts as within the condition; the empty value is not a condition; in placeholder form '
+        'only the first ${{ }} is decided by syntax alone (later ones depend on the semantic check of the earlier ones)',
         'syntax diagnostics are recognised by the message prefixes of expr_lexer.go/expr_parser.go; in the rejected case the '
         'message must equal the one returned by ExprParser.Parse on the same text']
 
@@ -467,10 +574,17 @@ def report(ck, allrecs, mism, drift):
         site = WHY_SITE.get(why, 'trace:' + why)
         if why in DEVS:
             site = 'lexer:' + why
+        elif why in IF_DEVS:
+            site = 'if:' + why
         per_site[site] = per_site.get(site, 0) + 1
         if per_site[site] > MAX_PER_SITE:
             continue
-        if rec['kind'] == 'lex':
+        if rec['kind'] == 'if':
+            what = ('%s-level if: %s written as a %s scalar: Linter.Lint reports %d syntax diagnostic(s) %s(%d of the expression '
+                    'rule in all%s), the if: channel of ExprIf.tla demands otherwise (%s)'
+                    % (rec['level'], json.dumps(rec['text']), rec['style'], rec['nsyntax'], json.dumps(rec['msgs'][:2]) + ' ' if rec['msgs'] else '',
+                       rec['nexpr'], '' if rec['inside'] else ', positioned outside the condition', why))
+        elif rec['kind'] == 'lex':
             what = ('input %s (classes %s): the real lexer gives tokens=%s error=%s, the token languages of ExprLexer.tla '
                     'do not (%s)' % (rec['text'], ' '.join(rec['s']), [(t['k'], t['off']) for t in rec['toks']],
                                     ('offset %d: %s' % (rec['off'], rec.get('msg', ''))) if rec['err'] else 'none', why))
@@ -478,7 +592,7 @@ def report(ck, allrecs, mism, drift):
             what = ('input %r (tokens %s): the real parser %s, the grammar of ExprParser.tla says otherwise (%s)'
                     % (rec['text'], ' '.join(rec['ts']),
                        'accepts it' if rec['ok'] else 'rejects it at token %d (%s)' % (rec['errAt'], rec.get('msg', '')), why))
-        ck.violation(site, what, replay_of(rec, {'why': why, 'dev': why if why in DEVS else 'none', 'predicted': meta.get('predicted')}))
+        ck.violation(site, what, replay_of(rec, {'why': why, 'dev': why if why in DEVS or why in IF_DEVS else 'none', 'predicted': meta.get('predicted')}))
     for site, cnt in per_site.items():
         if cnt > MAX_PER_SITE:
             ck.note('site %s: %d violating runs, the first %d are recorded' % (site, cnt, MAX_PER_SITE))
@@ -543,6 +657,20 @@ def replay(path):
                 return 1 if problem else 0
         print('site not rendered')
         return 2
+    if rp['kind'] == 'if':
+        vplib.write_jsonl(fin, [{'id': 0, 's': rp['s'], 'rot': rp['rot'], 'only': rp['only']}])
+        vplib.run_harness(['expr-if', fin, fout])
+        runs = vplib.read_jsonl(fout)[0]['runs']
+        if len(runs) != 1:
+            print('the rendering %s is not available for this value' % rp['only'])
+            return 2
+        run = runs[0]
+        if_usable(run)
+        print('%s-level if: %s (%s): %d syntax diagnostic(s) %r, %d of the expression rule, inside=%s'
+              % (run['level'], json.dumps(run['text']), run['style'], run['nsyntax'], run['msgs'], run['nexpr'], run['inside']))
+        _, _, mism, drift = judge(trace_line(run) + '\n', name='replay')
+        print('property violated (%s)' % mism[0][1] if mism else 'property holds', '(model drift)' if drift and not mism else '')
+        return 1 if mism else 0
     if rp['kind'] == 'lex':
         vplib.write_jsonl(fin, [{'id': 0, 's': rp['s'], 'rot': rp['rot']}])
         vplib.run_harness(['expr-lex-vectors', fin, fout, '1'])
